@@ -16,7 +16,7 @@ EXTENDS Integers, Sequences, FiniteSets, BigRat
 Senses == {"L", "G", "E", "R"}
 Range(s) == {s[k] : k \in 1..Len(s)}
 NoDup(s) == \A a, b \in 1..Len(s) : s[a] = s[b] => a = b
-UNKNOWN == "?"     \* a name generated by the library, not yet observed
+UNKNOWN == ""      \* a NULL name argument: the library generates a name, not yet observed
 
 EmptyLP(max) ==
   [m |-> 0, n |-> 0, A |-> <<>>, sense |-> <<>>, rhs |-> <<>>, range |-> <<>>, rname |-> <<>>,
